@@ -693,9 +693,10 @@ func TestVerifC16(t *testing.T) {
 		depth int
 		world []c16Op // executed on the primary before every history (operations like the others)
 	}{
-		{"entities", c16EntityOps(), entityDepth, nil},
-		// before the two big families: in the thorough tier those end on the wall budget
+		// first: it is the cheapest family, and in the thorough tier the others end on the wall budget
+		// (on a loaded machine the entity family alone uses all of it)
 		{"deletions", c16DeletionOps(), deletionDepth, []c16Op{c16DeletionWorld()}},
+		{"entities", c16EntityOps(), entityDepth, nil},
 		{"mappings", c16MappingOps(), mappingDepth, nil},
 		{"union", append(c16EntityOps(), c16MappingOps()...), mixedDepth, nil},
 	}
